@@ -220,7 +220,25 @@ func (a *BigInt) M__imul__(other Object) (Object, error) {
 	return a.M__mul__(other)
 }
 
+// intTrueDiv divides two integers exactly and rounds the quotient once
+func intTrueDiv(a, b *big.Int) (Object, error) {
+	if b.Sign() == 0 {
+		return nil, divisionByZero
+	}
+	f, _ := new(big.Rat).SetFrac(a, b).Float64()
+	if f == 0 && (a.Sign() < 0) != (b.Sign() < 0) {
+		f = math.Copysign(0, -1)
+	}
+	if math.IsInf(f, 0) {
+		return nil, ExceptionNewf(OverflowError, "integer division result too large for a float")
+	}
+	return Float(f), nil
+}
+
 func (a *BigInt) M__truediv__(other Object) (Object, error) {
+	if bi, ok := ConvertToBigInt(other); ok {
+		return intTrueDiv((*big.Int)(a), (*big.Int)(bi))
+	}
 	b, err := MakeFloat(other)
 	if err != nil {
 		return nil, err
@@ -237,6 +255,9 @@ func (a *BigInt) M__truediv__(other Object) (Object, error) {
 }
 
 func (a *BigInt) M__rtruediv__(other Object) (Object, error) {
+	if bi, ok := ConvertToBigInt(other); ok {
+		return intTrueDiv((*big.Int)(bi), (*big.Int)(a))
+	}
 	b, err := MakeFloat(other)
 	if err != nil {
 		return nil, err
